@@ -27,3 +27,21 @@ for _k, _v in PROPS.items():
     _v.setdefault('assumptions', ['torch semantics tables (view vs copy, *_ex status returns) are correct',
                                   'dynamic dispatch through user-supplied objects (solver, kernel, model, strategy) is opaque',
                                   'loops explored with each back edge taken at most twice'])
+
+
+def _load_inventory():
+    """rule ids and texts as last generated by tools_manifest.py (sa/rule_inventory.json): the explanation of every property lists every
+    rule that is actually run, not only the ones described by hand above"""
+    import json, os
+    p = os.path.join(os.path.dirname(os.path.abspath(__file__)), 'rule_inventory.json')
+    try:
+        inv = json.load(open(p))
+    except (OSError, ValueError):
+        return
+    for pid, rules in inv.items():
+        if pid in PROPS:
+            PROPS[pid]['rules'] = rules
+            PROPS[pid]['explanation'] = 'Rules run: ' + ' | '.join('%s: %s' % (r['rule'], r['text']) for r in rules) + _NOTE
+
+
+_load_inventory()
